@@ -20,10 +20,81 @@ type docParams struct {
 	HF     bool   `json:"hf,omitempty"` // repeated header/footer lines on every non-blank page
 	Lines  int    `json:"lines"`        // body lines per page
 	Tag    string `json:"tag"`
+	// Layout gives the layout of page p at index p-1 (missing entries = 0):
+	// 0 = Lines full-width body lines, 2 = two columns of Rows lines each,
+	// 3 = Lines full-width body lines shown one glyph per show operator.
+	Layout []int `json:"layout,omitempty"`
+	Rows   int   `json:"rows,omitempty"`   // lines per column on two-column pages
+	ColMaj bool  `json:"colmaj,omitempty"` // two-column pages: content stream shows the left column first (else row by row)
 }
 
+const (
+	laySingle = 0
+	layTwoCol = 2
+	layGlyphs = 3
+)
+
 func (d docParams) key() string {
-	return fmt.Sprintf("%s-%d-%v-%v-%v-%d-%s", d.Kind, d.N, d.Blank, d.Nested, d.HF, d.Lines, d.Tag)
+	k := fmt.Sprintf("%s-%d-%v-%v-%v-%d-%s", d.Kind, d.N, d.Blank, d.Nested, d.HF, d.Lines, d.Tag)
+	if d.mixed() {
+		k += fmt.Sprintf("-%v-%d-%v", d.Layout, d.Rows, d.ColMaj)
+	}
+	return k
+}
+
+// layoutOf is the layout of page p (1-based).
+func (d docParams) layoutOf(p int) int {
+	if p >= 1 && p <= len(d.Layout) {
+		return d.Layout[p-1]
+	}
+	return laySingle
+}
+
+// mixed: some page is not a plain single-column page.
+func (d docParams) mixed() bool {
+	for p := 1; p <= d.N; p++ {
+		if d.layoutOf(p) != laySingle {
+			return true
+		}
+	}
+	return false
+}
+
+func (d docParams) hasGlyphPages() bool {
+	for p := 1; p <= d.N; p++ {
+		if d.layoutOf(p) == layGlyphs {
+			return true
+		}
+	}
+	return false
+}
+
+// linesOn is the number of token-carrying lines of page p (0 for a blank page).
+func (d docParams) linesOn(p int) int {
+	switch {
+	case d.isBlank(p):
+		return 0
+	case d.layoutOf(p) == layTwoCol:
+		return 2 * d.Rows
+	}
+	return d.Lines
+}
+
+// layoutClass names how the pages of the document differ from page 1.
+func (d docParams) layoutClass() string {
+	if !d.mixed() {
+		return "uniform-single"
+	}
+	first, same := d.layoutOf(1), true
+	for p := 2; p <= d.N; p++ {
+		if d.layoutOf(p) != first {
+			same = false
+		}
+	}
+	if same {
+		return fmt.Sprintf("uniform-%d", first)
+	}
+	return fmt.Sprintf("page1=%d-others-differ", first)
 }
 
 func (d docParams) isBlank(p int) bool {
@@ -37,7 +108,35 @@ func (d docParams) isBlank(p int) bool {
 
 func (d docParams) hasBlank() bool { return len(d.Blank) > 0 }
 
+// describe says in words what the document is (for failure details).
+func (d docParams) describe() string {
+	if d.Kind != "good" {
+		return d.Kind + " file"
+	}
+	s := fmt.Sprintf("%d-page PDF", d.N)
+	if !d.mixed() {
+		return s + fmt.Sprintf(" (every page %d full-width lines)", d.Lines)
+	}
+	var ps []string
+	for p := 1; p <= d.N; p++ {
+		switch {
+		case d.isBlank(p):
+			ps = append(ps, fmt.Sprintf("page %d blank", p))
+		case d.layoutOf(p) == layTwoCol:
+			ps = append(ps, fmt.Sprintf("page %d two columns x %d lines", p, d.Rows))
+		case d.layoutOf(p) == layGlyphs:
+			ps = append(ps, fmt.Sprintf("page %d %d lines shown glyph by glyph", p, d.Lines))
+		default:
+			ps = append(ps, fmt.Sprintf("page %d %d full-width lines", p, d.Lines))
+		}
+	}
+	return s + " (" + strings.Join(ps, ", ") + ")"
+}
+
 var fillers = []string{"alpha", "beta gamma", "delta", "epsilon zeta eta", "theta"}
+
+// shorter fillers for column cells (a cell must stay inside its column)
+var colFillers = []string{"iota kappa", "lambda", "mu nu xi", "omicron pi", "rho"}
 
 // token of body line j (0-based) of page p (1-based)
 func (d docParams) token(p, j int) string { return fmt.Sprintf("PAGE-%d-%s-L%d", p, d.Tag, j) }
@@ -48,13 +147,33 @@ func (d docParams) spec() docSpec {
 		var ps pageSpec
 		if !d.isBlank(p) {
 			if d.HF {
-				ps.lines = append(ps.lines, textLine{72, 760, "Quarterly Report"})
+				ps.lines = append(ps.lines, textLine{x: 72, y: 760, s: "Quarterly Report"})
 			}
-			for j := 0; j < d.Lines; j++ {
-				ps.lines = append(ps.lines, textLine{72, 680 - 24*j, d.token(p, j) + " " + fillers[(p+j)%len(fillers)]})
+			switch d.layoutOf(p) {
+			case layTwoCol:
+				// tokens 0..Rows-1 are the left column top to bottom, Rows..2*Rows-1 the right column
+				cell := func(col, i int) textLine {
+					j := col*d.Rows + i
+					return textLine{x: 60 + 270*col, y: 680 - 14*i, s: d.token(p, j) + " " + colFillers[(p+j)%len(colFillers)], size: 10}
+				}
+				if d.ColMaj {
+					for col := 0; col < 2; col++ {
+						for i := 0; i < d.Rows; i++ {
+							ps.lines = append(ps.lines, cell(col, i))
+						}
+					}
+				} else {
+					for i := 0; i < d.Rows; i++ {
+						ps.lines = append(ps.lines, cell(0, i), cell(1, i))
+					}
+				}
+			default:
+				for j := 0; j < d.Lines; j++ {
+					ps.lines = append(ps.lines, textLine{x: 72, y: 680 - 24*j, s: d.token(p, j) + " " + fillers[(p+j)%len(fillers)], glyphs: d.layoutOf(p) == layGlyphs})
+				}
 			}
 			if d.HF {
-				ps.lines = append(ps.lines, textLine{72, 30, "Confidential"})
+				ps.lines = append(ps.lines, textLine{x: 72, y: 30, s: "Confidential"})
 			}
 		}
 		ds.pages = append(ds.pages, ps)
@@ -92,6 +211,66 @@ func genDoc(r *hx.Rng, thorough bool) docParams {
 				d.Blank = append(d.Blank, p)
 			}
 		}
+	}
+	if d.N >= 2 && r.Chance(1, 5) {
+		genLayout(r, &d)
+	}
+	return d
+}
+
+// genLayout makes the pages of d differ in layout: page 1 full-width and later
+// pages in two columns / glyph by glyph, the reverse, every page the same
+// non-plain layout, or a free mix.  The number of lines per column ranges over
+// short and long columns (a detector with a minimum-size rule sees both sides).
+func genLayout(r *hx.Rng, d *docParams) {
+	if d.N < 1 {
+		return
+	}
+	d.Layout = make([]int, d.N)
+	d.Rows = hx.Pick(r, []int{3, 8, 14, 20, 22, 26, 30, 34})
+	d.ColMaj = r.Bool()
+	odd := hx.Pick(r, []int{layTwoCol, layTwoCol, layTwoCol, layGlyphs})
+	switch r.Intn(7) {
+	case 0, 1, 2: // page 1 plain, one or more later pages not
+		if d.N >= 2 {
+			d.Layout[r.Range(2, d.N)-1] = odd
+		}
+		for p := 2; p <= d.N; p++ {
+			if r.Chance(1, 3) {
+				d.Layout[p-1] = odd
+			}
+		}
+	case 3, 4: // page 1 not plain, one or more later pages plain
+		for p := 1; p <= d.N; p++ {
+			d.Layout[p-1] = odd
+		}
+		if d.N >= 2 {
+			d.Layout[r.Range(2, d.N)-1] = laySingle
+		}
+		for p := 2; p <= d.N; p++ {
+			if r.Chance(1, 2) {
+				d.Layout[p-1] = laySingle
+			}
+		}
+	case 5: // every page the same non-plain layout
+		for p := 1; p <= d.N; p++ {
+			d.Layout[p-1] = odd
+		}
+	default: // free mix of the three layouts
+		for p := 1; p <= d.N; p++ {
+			d.Layout[p-1] = hx.Pick(r, []int{laySingle, layTwoCol, layGlyphs})
+		}
+	}
+}
+
+// genSeqDoc is the document of an operation-sequence case: small, and with a
+// small tag space so that per-page reference results are shared between cases.
+func genSeqDoc(r *hx.Rng) docParams {
+	d := docParams{Kind: "good", N: r.Range(1, 6), Lines: r.Range(1, 2), Nested: r.Chance(1, 3), Tag: fmt.Sprintf("t%x", r.Intn(1<<12))}
+	if r.Chance(2, 5) {
+		d.N = r.Range(2, 5)
+		d.Tag = fmt.Sprintf("t%x", r.Intn(4))
+		genLayout(r, &d)
 	}
 	return d
 }
@@ -291,11 +470,21 @@ func withFlags(r *hx.Rng, cs []call) []call {
 
 // ---- operation sequences ----------------------------------------------------------
 
-// seqOp: d(erive) t(ext) g(fragments) u(document) k(chunks) c(PageCount) m(IsMultiColumn) x(Close)
+// seqOp: d(erive) t(ext) g(fragments) u(document) k(chunks) c(PageCount) m(IsMultiColumn) h(IsCharacterLevel) x(Close)
 type seqOp struct {
 	K string `json:"k"`
 	E int    `json:"e"`
 	C *call  `json:"c,omitempty"`
+}
+
+// modelToken is the operation as the builder model knows it: IsCharacterLevel
+// has the frame of IsMultiColumn (open the reader if needed, read page 1,
+// answer a flag, leave the reader open), so it is sent as "m".
+func (o seqOp) modelToken() string {
+	if o.K == "h" {
+		return "m" + strconv.Itoa(o.E)
+	}
+	return o.token()
 }
 
 func (o seqOp) token() string {
@@ -326,11 +515,75 @@ func genBuilderCall(r *hx.Rng, n int) call {
 	return call{K: hx.Pick(r, flagKinds)}
 }
 
+var nonTerminals = []string{"c", "m", "m", "h"}
+var terminals = []string{"t", "t", "t", "g", "u", "k"}
+
+// genSelOrFlag: a derivation that selects pages (mostly) or sets an option.
+func genSelOrFlag(r *hx.Rng, n int) call {
+	if r.Chance(1, 4) {
+		return call{K: hx.Pick(r, flagKinds)}
+	}
+	switch r.Intn(4) {
+	case 0:
+		s := r.Range(1, max(n, 1))
+		return call{K: "R", A: []int{s, r.Range(s, max(n, s))}}
+	case 1:
+		return call{K: "P", A: []int{r.Range(1, max(n, 1)), r.Range(1, max(n, 1))}}
+	}
+	return call{K: "P", A: []int{r.Range(1, max(n, 1))}}
+}
+
 func genSeq(r *hx.Rng, n int, thorough bool) []seqOp {
 	var ops []seqOp
 	next := 1 // number of extractors so far (0 = base)
-	pattern := r.Intn(6)
+	derive := func(from int, c call) int {
+		ops = append(ops, seqOp{K: "d", E: from, C: &c})
+		next++
+		return next - 1
+	}
+	pattern := r.Intn(10)
 	switch pattern {
+	case 3: // non-terminal calls on the base, then a selection derived from it is extracted, then the base itself
+		for i, k := 0, r.Range(1, 3); i < k; i++ {
+			ops = append(ops, seqOp{K: hx.Pick(r, nonTerminals), E: 0})
+		}
+		cur := derive(0, genSelOrFlag(r, n))
+		if r.Bool() {
+			ops = append(ops, seqOp{K: hx.Pick(r, nonTerminals), E: cur})
+		}
+		if r.Bool() {
+			cur = derive(cur, genSelOrFlag(r, n))
+		}
+		ops = append(ops, seqOp{K: hx.Pick(r, terminals), E: cur})
+		if r.Bool() {
+			ops = append(ops, seqOp{K: hx.Pick(r, nonTerminals), E: 0})
+		}
+		ops = append(ops, seqOp{K: hx.Pick(r, terminals), E: 0})
+	case 4: // one sibling derived before and one after the non-terminal call on their parent
+		a := derive(0, genSelOrFlag(r, n))
+		ops = append(ops, seqOp{K: hx.Pick(r, nonTerminals), E: 0})
+		b := derive(0, genSelOrFlag(r, n))
+		ops = append(ops, seqOp{K: hx.Pick(r, terminals), E: b}, seqOp{K: hx.Pick(r, terminals), E: a})
+		ops = append(ops, seqOp{K: hx.Pick(r, nonTerminals), E: 0}, seqOp{K: hx.Pick(r, terminals), E: 0})
+	case 5: // a non-terminal call on a derived extractor: its own children, its parent and a cousin are then used
+		a := derive(0, genSelOrFlag(r, n))
+		ops = append(ops, seqOp{K: hx.Pick(r, nonTerminals), E: a})
+		b := derive(a, genSelOrFlag(r, n))
+		cz := derive(0, genSelOrFlag(r, n))
+		for _, x := range []int{b, cz, a, 0} {
+			if r.Chance(3, 4) {
+				ops = append(ops, seqOp{K: hx.Pick(r, terminals), E: x})
+			}
+		}
+	case 6: // the same extractor answers a non-terminal call and then the terminal one (no derivation in between)
+		cur := 0
+		if r.Bool() {
+			cur = derive(0, genSelOrFlag(r, n))
+		}
+		for i, k := 0, r.Range(1, 3); i < k; i++ {
+			ops = append(ops, seqOp{K: hx.Pick(r, nonTerminals), E: cur})
+		}
+		ops = append(ops, seqOp{K: hx.Pick(r, terminals), E: cur})
 	case 0: // siblings off one parent whose page list has spare capacity
 		k := hx.Pick(r, []int{3, 5, 6, 7})
 		cur := 0
@@ -345,7 +598,7 @@ func genSeq(r *hx.Rng, n int, thorough bool) []seqOp {
 		next += 2
 		ops = append(ops, seqOp{K: hx.Pick(r, []string{"t", "g", "u"}), E: a}, seqOp{K: "t", E: b}, seqOp{K: "t", E: cur})
 	case 1: // parent opened by a non-terminal call, derived child used, parent used again
-		ops = append(ops, seqOp{K: hx.Pick(r, []string{"c", "m"}), E: 0})
+		ops = append(ops, seqOp{K: hx.Pick(r, []string{"c", "m", "h"}), E: 0})
 		c := genBuilderCall(r, n)
 		ops = append(ops, seqOp{K: "d", E: 0, C: &c})
 		ops = append(ops, seqOp{K: hx.Pick(r, []string{"t", "g", "u", "k", "x"}), E: 1})
@@ -365,7 +618,9 @@ func genSeq(r *hx.Rng, n int, thorough bool) []seqOp {
 	}
 	for len(ops) < total {
 		e := r.Intn(next)
-		switch x := r.Intn(20); {
+		switch x := r.Intn(22) - 2; {
+		case x < 0:
+			ops = append(ops, seqOp{K: hx.Pick(r, []string{"m", "h"}), E: e})
 		case x < 7:
 			c := genBuilderCall(r, n)
 			ops = append(ops, seqOp{K: "d", E: e, C: &c})
